@@ -90,7 +90,8 @@ func render(c *Case) string {
 		return s.String()
 	}
 	if c.Style == "grouped" {
-		b.WriteString("type (\n")
+		// a directive written above the whole group belongs to no struct of the group (not even an undocumented one)
+		b.WriteString("// the declarations of this file\n// gomacro:SQL ADD CHECK (N > 0)\ntype (\n")
 		b.WriteString(comments(c.ItemC, c.ItemQ, "\t") + "\tItem " + strings.ReplaceAll(item, "\n", "\n\t") + "\n\n")
 		if c.Neighbour {
 			b.WriteString("\tPlain struct {\n\t\tId int64\n\t\tN  int\n\t}\n\n")
